@@ -541,7 +541,8 @@ def r8_set_changes_one_value(ctx):
     fn = ctx.func('segment', 'Segment.set')
     g = ctx.cfg(fn)
     bad = []
-    cases = [('01', 0, None), ('02', 1, None), ('02-1', 1, 0), ('02-2', 1, 1), ('02-3', 1, 2), ('02-5', 1, 4), ('04', 3, None), ('04-2', 3, 1), ('01-1', 0, 0)]
+    cases = [('01', 0, None), ('02', 1, None), ('02-1', 1, 0), ('02-2', 1, 1), ('02-3', 1, 2), ('02-5', 1, 4), ('04', 3, None), ('04-2', 3, 1), ('01-1', 0, 0),
+             ('02-7', 1, 6), ('01-4', 0, 3), ('06-3', 5, 2)]
     for rd, ei, ci in cases:
         elems = (_CompM('A'), _CompM('B:C:D'))
         before = [c.values() for c in elems]
@@ -697,6 +698,11 @@ class _QNode(object):
     def _select(self, p):
         return self._results
 
+    def get_first_matching_segment(self, p):
+        # another search: it stops at the first loop instance of each id, so it need not agree with _select
+        self.other_search = True
+        return None
+
     def __hash__(self):
         return hash(('qnode', self.name))
 
@@ -731,6 +737,9 @@ def r10_queries_agree(ctx):
         funcs['self.count'] = lambda t: call(fc)
         got_s = call(fs, True)
         got_e, got_c, got_f = call(fe), call(fc), call(ff)
+        if getattr(start, 'other_search', False):
+            bad.append('one of exists / count / first / select answers from get_first_matching_segment, which looks into the first loop instance of each '
+                       'id only, while the others search every instance with _select: they disagree when a later instance holds the segment')
         if tuple(got_s) != res:
             bad.append('with %d matching node(s) select yields %s' % (k, [repr(x) for x in got_s]))
         if got_e is not (k > 0):
